@@ -14,13 +14,13 @@ import (
 
 func bodyTerm(b *nom.AccountBlock) M {
 	return Con("mkABody", U64(b.Version), U64(b.ChainIdentifier), U64(b.BlockType),
-		Bz(b.Hash[:]), Bz(b.PreviousHash[:]), U64(b.Height),
-		Bz(b.MomentumAcknowledged.Hash[:]), U64(b.MomentumAcknowledged.Height),
-		Bz(b.Address[:]), Bz(b.ToAddress[:]), Big(b.Amount), Bz(b.TokenStandard[:]),
-		Bz(b.FromBlockHash[:]), Bz(b.Data),
-		U64(b.FusedPlasma), U64(b.Difficulty), Bz(b.Nonce.Data[:]),
-		U64(b.BasePlasma), U64(b.TotalPlasma), Bz(b.ChangesHash[:]),
-		Bz(b.PublicKey), Bz(b.Signature))
+		Byt(b.Hash[:]), Byt(b.PreviousHash[:]), U64(b.Height),
+		Byt(b.MomentumAcknowledged.Hash[:]), U64(b.MomentumAcknowledged.Height),
+		Byt(b.Address[:]), Byt(b.ToAddress[:]), Big(b.Amount), Byt(b.TokenStandard[:]),
+		Byt(b.FromBlockHash[:]), Byt(b.Data),
+		U64(b.FusedPlasma), U64(b.Difficulty), Byt(b.Nonce.Data[:]),
+		U64(b.BasePlasma), U64(b.TotalPlasma), Byt(b.ChangesHash[:]),
+		Byt(b.PublicKey), Byt(b.Signature))
 }
 func abTerm(b *nom.AccountBlock) M {
 	ds := make([]interface{}, 0, len(b.DescendantBlocks))
@@ -30,7 +30,7 @@ func abTerm(b *nom.AccountBlock) M {
 	return Con("ABNode", bodyTerm(b), ds)
 }
 func hdrTerm(h *types.AccountHeader) M {
-	return Con("mkAHeader", Bz(h.Address[:]), Bz(h.Hash[:]), U64(h.Height))
+	return Con("mkAHeader", Byt(h.Address[:]), Byt(h.Hash[:]), U64(h.Height))
 }
 func contentTerm(c nom.MomentumContent) []interface{} {
 	l := make([]interface{}, 0, len(c))
@@ -40,9 +40,9 @@ func contentTerm(c nom.MomentumContent) []interface{} {
 	return l
 }
 func momTerm(m *nom.Momentum) M {
-	return Con("mkMom", U64(m.Version), U64(m.ChainIdentifier), Bz(m.Hash[:]), Bz(m.PreviousHash[:]),
-		U64(m.Height), U64(m.TimestampUnix), Bz(m.Data), contentTerm(m.Content), Bz(m.ChangesHash[:]),
-		Bz(m.PublicKey), Bz(m.Signature))
+	return Con("mkMom", U64(m.Version), U64(m.ChainIdentifier), Byt(m.Hash[:]), Byt(m.PreviousHash[:]),
+		U64(m.Height), U64(m.TimestampUnix), Byt(m.Data), contentTerm(m.Content), Byt(m.ChangesHash[:]),
+		Byt(m.PublicKey), Byt(m.Signature))
 }
 func same(a, b interface{}) bool {
 	x, _ := json.Marshal(a)
@@ -66,7 +66,10 @@ func rBytes(rng *rand.Rand, n int) []byte {
 	return b
 }
 func rVar(rng *rand.Rand) []byte {
-	n := []int{0, 0, 1, 2, 31, 32, 33, 64, 127, 128, 129, 300, 1000}[rng.Intn(13)]
+	n := []int{0, 0, 0, 1, 2, 5, 31, 32, 33, 64, 127, 128, 129}[rng.Intn(13)]
+	if rng.Intn(40) == 0 {
+		n = []int{300, 1000}[rng.Intn(2)]
+	}
 	if n == 0 && rng.Intn(2) == 0 {
 		return nil
 	}
@@ -117,7 +120,7 @@ func rBlock(rng *rand.Rand, depth int) *nom.AccountBlock {
 	b.Signature = rVar(rng)
 	b.DescendantBlocks = []*nom.AccountBlock{}
 	if depth > 0 {
-		for i := rng.Intn(4); i > 0; i-- {
+		for i := rng.Intn(3); i > 0; i-- {
 			b.DescendantBlocks = append(b.DescendantBlocks, rBlock(rng, depth-1-rng.Intn(depth)))
 		}
 	}
@@ -152,22 +155,4 @@ func rMomentum(rng *rand.Rand) *nom.Momentum {
 	m.PublicKey = rVar(rng)
 	m.Signature = rVar(rng)
 	return m
-}
-
-// Bz: a byte string as (B length big-endian-value): one number literal instead of one per byte
-// (coq/theories/TieC13.v: B n z = be_bytes n z).
-func Bz(b []byte) M {
-	const chunk = 1024 // the driver's JSON reader limits a number to 4300 digits
-	if len(b) <= chunk {
-		return Con("B", I64(int64(len(b))), Big(new(big.Int).SetBytes(b)))
-	}
-	parts := []interface{}{}
-	for i := 0; i < len(b); i += chunk {
-		j := i + chunk
-		if j > len(b) {
-			j = len(b)
-		}
-		parts = append(parts, Con("B", I64(int64(j-i)), Big(new(big.Int).SetBytes(b[i:j]))))
-	}
-	return Con("BB", parts)
 }
